@@ -17,7 +17,8 @@
 (* Properties: C07 (Order, CloseAfterData), C09 (LedgerExact, AllBack), C10 (Monotone, ClosedIsFinal, PeerLearns).     *)
 EXTENDS Integers, Sequences, FiniteSets, TLC
 CONSTANTS Streams, QCap, MaxMsgs,     \* MaxMsgs[side] = messages each stream may flush from that side
-          MaxExh                      \* how many times the environment may exhaust / refill the shared memory
+          MaxExh,                     \* how many times the environment may exhaust / refill the shared memory
+          MaxBad                      \* fault budget: corrupt queue elements (invalid buffer offset) the client end may publish
 Sides == {"A", "B"}
 Peer(e) == IF e = "A" THEN "B" ELSE "A"
 
@@ -35,10 +36,11 @@ VARIABLES sst,       \* [side][stream] : "none" | "open" | "half" | "closed"
           gen,       \* [side][stream] : incarnation of the stream object at this end (server side re-creates)
           eos,       \* [side][stream] : reader has been told the stream ended
           exh, nexh, \* shared memory exhausted (environment), toggles used
+          nbad,      \* corrupt queue elements published so far (fault PutBad)
           inuse,     \* ledger: shared-memory buffers allocated
           lastErr,   \* result of the last API call (observation only)
           kf         \* ghost: classifier of the listed known findings ("" = execution outside every listed class)
-vars == <<sst, wpc, nmsg, okmsg, fbk, queue, sock, flag, pend, got, gen, eos, exh, nexh, inuse, lastErr, kf>>
+vars == <<sst, wpc, nmsg, okmsg, fbk, queue, sock, flag, pend, got, gen, eos, exh, nexh, nbad, inuse, lastErr, kf>>
 
 Init == /\ sst = [e \in Sides |-> [s \in Streams |-> "none"]]
         /\ wpc = [e \in Sides |-> [s \in Streams |-> "idle"]]
@@ -50,7 +52,7 @@ Init == /\ sst = [e \in Sides |-> [s \in Streams |-> "none"]]
         /\ got = [e \in Sides |-> [s \in Streams |-> <<>>]]
         /\ gen = [e \in Sides |-> [s \in Streams |-> 0]]
         /\ eos = [e \in Sides |-> [s \in Streams |-> FALSE]]
-        /\ exh = FALSE /\ nexh = 0 /\ inuse = 0 /\ lastErr = "none" /\ kf = ""
+        /\ exh = FALSE /\ nexh = 0 /\ nbad = 0 /\ inuse = 0 /\ lastErr = "none" /\ kf = ""
 
 Set2(f, e, s, v) == [f EXCEPT ![e][s] = v]
 ShmCount(sq) == Cardinality({i \in 1..Len(sq) : sq[i][2]})
@@ -78,19 +80,27 @@ KfStep == kf' = IF kf # "" THEN kf
 -----------------------------------------------------------------------------
 \* environment
 Exhaust == /\ nexh < MaxExh /\ exh' = ~exh /\ nexh' = nexh + 1 /\ lastErr' = "none"
-           /\ UNCHANGED <<sst, wpc, nmsg, okmsg, fbk, queue, sock, flag, pend, got, gen, eos, inuse>>
+           /\ UNCHANGED <<sst, wpc, nmsg, okmsg, fbk, queue, sock, flag, pend, got, gen, eos, inuse, nbad>>
            /\ KfStep
+\* fault: a queue element of stream s whose buffer offset is not a buffer (a protocol bug or a scribbled queue) appears on
+\* the client's queue. It holds no buffer and brings no wake-up of its own: it is consumed by the polling round that the
+\* next Flush / Close (or one already in flight) causes. The code logs and skips it when the reader drains pending data.
+PutBad(s) == /\ nbad < MaxBad /\ sst["A"][s] = "open" /\ Len(queue["A"]) < QCap
+             /\ queue' = [queue EXCEPT !["A"] = Append(@, <<s, "x", 0>>)]
+             /\ nbad' = nbad + 1 /\ lastErr' = "none"
+             /\ UNCHANGED <<sst, wpc, nmsg, okmsg, fbk, sock, flag, pend, got, gen, eos, exh, nexh, inuse>>
+             /\ KfStep
 
 \* API calls of end e on stream s
 Open(s) ==     \* Session.OpenStream (client only)
     /\ sst["A"][s] = "none" /\ sst' = Set2(sst, "A", s, "open") /\ lastErr' = "ok"
-    /\ UNCHANGED <<wpc, nmsg, okmsg, fbk, queue, sock, flag, pend, got, gen, eos, exh, nexh, inuse>>
+    /\ UNCHANGED <<wpc, nmsg, okmsg, fbk, queue, sock, flag, pend, got, gen, eos, exh, nexh, nbad, inuse>>
     /\ KfStep
 
 FlushClosed(e, s) ==   \* Flush on a stream that is not open any more: ErrStreamClosed, buffer recycled
     /\ sst[e][s] \in {"half", "closed"} /\ wpc[e][s] = "idle" /\ nmsg[e][s] < MaxMsgs[e]
     /\ nmsg' = Set2(nmsg, e, s, nmsg[e][s] + 1) /\ lastErr' = "ErrStreamClosed"
-    /\ UNCHANGED <<sst, wpc, okmsg, fbk, queue, sock, flag, pend, got, gen, eos, exh, nexh, inuse>>
+    /\ UNCHANGED <<sst, wpc, okmsg, fbk, queue, sock, flag, pend, got, gen, eos, exh, nexh, nbad, inuse>>
     /\ KfStep
 FlushFallback(e, s) == \* shared memory exhausted now, or earlier on this stream: the message travels on the socket
     /\ sst[e][s] = "open" /\ wpc[e][s] = "idle" /\ nmsg[e][s] < MaxMsgs[e] /\ (exh \/ fbk[e][s])
@@ -99,7 +109,7 @@ FlushFallback(e, s) == \* shared memory exhausted now, or earlier on this stream
     /\ fbk' = Set2(fbk, e, s, TRUE)
     /\ sock' = [sock EXCEPT ![e] = Append(@, <<"fb", s, nmsg[e][s] + 1>>)]
     /\ lastErr' = "ok"
-    /\ UNCHANGED <<sst, wpc, queue, flag, pend, got, gen, eos, exh, nexh, inuse>>
+    /\ UNCHANGED <<sst, wpc, queue, flag, pend, got, gen, eos, exh, nexh, nbad, inuse>>
     /\ KfStep
 FlushPut(e, s) ==      \* shared-memory path, first step: the element is on the queue (the buffer now belongs to it)
     /\ sst[e][s] = "open" /\ wpc[e][s] = "idle" /\ nmsg[e][s] < MaxMsgs[e] /\ ~exh /\ ~fbk[e][s]
@@ -109,26 +119,26 @@ FlushPut(e, s) ==      \* shared-memory path, first step: the element is on the 
     /\ queue' = [queue EXCEPT ![e] = Append(@, <<s, "d", nmsg[e][s] + 1>>)]
     /\ inuse' = inuse + 1
     /\ wpc' = Set2(wpc, e, s, "cas") /\ lastErr' = "ok"
-    /\ UNCHANGED <<sst, fbk, sock, flag, pend, got, gen, eos, exh, nexh>>
+    /\ UNCHANGED <<sst, fbk, sock, flag, pend, got, gen, eos, exh, nexh, nbad>>
     /\ KfStep
 FlushFull(e, s) ==     \* queue still full after the retries: ErrQueueFull, buffer recycled, nothing sent
     /\ sst[e][s] = "open" /\ wpc[e][s] = "idle" /\ nmsg[e][s] < MaxMsgs[e] /\ ~exh /\ ~fbk[e][s]
     /\ Len(queue[e]) >= QCap
     /\ nmsg' = Set2(nmsg, e, s, nmsg[e][s] + 1) /\ lastErr' = "ErrQueueFull"
-    /\ UNCHANGED <<sst, wpc, okmsg, fbk, queue, sock, flag, pend, got, gen, eos, exh, nexh, inuse>>
+    /\ UNCHANGED <<sst, wpc, okmsg, fbk, queue, sock, flag, pend, got, gen, eos, exh, nexh, nbad, inuse>>
     /\ KfStep
 WCas(e, s) ==          \* wakeUpPeer: markWorking()
     /\ wpc[e][s] = "cas"
     /\ IF flag[e] = 0 THEN flag' = [flag EXCEPT ![e] = 1] /\ wpc' = Set2(wpc, e, s, "send")
                       ELSE flag' = flag /\ wpc' = Set2(wpc, e, s, "idle")
     /\ lastErr' = "none"
-    /\ UNCHANGED <<sst, nmsg, okmsg, fbk, queue, sock, pend, got, gen, eos, exh, nexh, inuse>>
+    /\ UNCHANGED <<sst, nmsg, okmsg, fbk, queue, sock, pend, got, gen, eos, exh, nexh, nbad, inuse>>
     /\ KfStep
 WSend(e, s) ==         \* wakeUpPeer: the polling event is written
     /\ wpc[e][s] = "send"
     /\ sock' = [sock EXCEPT ![e] = Append(@, <<"poll">>)]
     /\ wpc' = Set2(wpc, e, s, "idle") /\ lastErr' = "none"
-    /\ UNCHANGED <<sst, nmsg, okmsg, fbk, queue, flag, pend, got, gen, eos, exh, nexh, inuse>>
+    /\ UNCHANGED <<sst, nmsg, okmsg, fbk, queue, flag, pend, got, gen, eos, exh, nexh, nbad, inuse>>
     /\ KfStep
 
 \* data of stream s still travelling towards end e
@@ -149,11 +159,11 @@ Close(e, s) ==
          ELSE UNCHANGED <<queue, sock, wpc>>
     /\ got' = Set2(got, e, s, got[e][s] \o [i \in 1..Len(pend[e][s]) |-> pend[e][s][i][1]])   \* dropped by its own close
     /\ lastErr' = "ok"
-    /\ UNCHANGED <<nmsg, okmsg, fbk, flag, gen, eos, exh, nexh>>
+    /\ UNCHANGED <<nmsg, okmsg, fbk, flag, gen, eos, exh, nexh, nbad>>
     /\ KfStep
 CloseAgain(e, s) ==    \* Close is idempotent
     /\ sst[e][s] = "closed" /\ wpc[e][s] = "idle" /\ lastErr' = "ok"
-    /\ UNCHANGED <<sst, wpc, nmsg, okmsg, fbk, queue, sock, flag, pend, got, gen, eos, exh, nexh, inuse>>
+    /\ UNCHANGED <<sst, wpc, nmsg, okmsg, fbk, queue, sock, flag, pend, got, gen, eos, exh, nexh, nbad, inuse>>
     /\ KfStep
 
 \* one message m for stream s arrives at end e (shm tells whether it holds a buffer). W is the record of the variables
@@ -168,11 +178,18 @@ Arrive(e, s, m, shm, W) ==
                             !.gt = Set2(W.gt, e, s, Append(W.gt[e][s], m))]
 HalfClose(e, s, W) == IF W.st[e][s] = "open" THEN [W EXCEPT !.st = Set2(W.st, e, s, "half")] ELSE W
 
+\* a corrupt element: nothing is delivered and nothing recycled; the server end still lets a stream surface for an id it
+\* does not know (getStream creates it before the element is looked at)
+Skip(e, s, W) == IF W.st[e][s] \in {"none", "closed"} /\ e = "B"
+                   THEN [W EXCEPT !.st = Set2(W.st, e, s, "open"), !.pd = Set2(W.pd, e, s, <<>>),
+                                  !.gn = Set2(W.gn, e, s, W.gn[e][s] + 1), !.es = Set2(W.es, e, s, FALSE)]
+                   ELSE W
 RECURSIVE Drain(_, _, _)
 Drain(e, q, W) ==
     IF q = <<>> THEN W
     ELSE LET x == Head(q) IN
            IF x[2] = "d" THEN Drain(e, Tail(q), Arrive(e, x[1], x[3], TRUE, W))
+           ELSE IF x[2] = "x" THEN Drain(e, Tail(q), Skip(e, x[1], W))
                          ELSE Drain(e, Tail(q), HalfClose(e, x[1], W))
 Now == [st |-> sst, pd |-> pend, iu |-> inuse, gt |-> got, gn |-> gen, es |-> eos]
 Apply(W) == /\ sst' = W.st /\ pend' = W.pd /\ inuse' = W.iu /\ got' = W.gt /\ gen' = W.gn /\ eos' = W.es
@@ -190,7 +207,7 @@ Deliver(e) ==          \* the event loop of end e handles the next socket event 
               [] ev[1] = "sc" ->
                    /\ Apply(HalfClose(e, ev[2], Now)) /\ UNCHANGED <<queue, flag>>
     /\ lastErr' = "none"
-    /\ UNCHANGED <<wpc, nmsg, okmsg, fbk, exh, nexh>>
+    /\ UNCHANGED <<wpc, nmsg, okmsg, fbk, exh, nexh, nbad>>
     /\ KfStep
 
 Read(e, s) ==          \* the reader takes everything that is pending and releases it
@@ -201,23 +218,23 @@ Read(e, s) ==          \* the reader takes everything that is pending and releas
     /\ fbk' = IF \E i \in 1..Len(pend[e][s]) : ~pend[e][s][i][2]
                 THEN Set2(fbk, e, s, TRUE) ELSE fbk      \* receiving fallback data makes this end use the socket too
     /\ lastErr' = "ok"
-    /\ UNCHANGED <<sst, wpc, nmsg, okmsg, queue, sock, flag, gen, eos, exh, nexh>>
+    /\ UNCHANGED <<sst, wpc, nmsg, okmsg, queue, sock, flag, gen, eos, exh, nexh, nbad>>
     /\ KfStep
 ReadEnd(e, s) ==       \* nothing pending and the stream is not open: end of stream (half-closed) or closed error
     /\ sst[e][s] \in {"half", "closed"} /\ pend[e][s] = <<>>
     /\ IF sst[e][s] = "half" THEN eos' = Set2(eos, e, s, TRUE) /\ lastErr' = "ErrEndOfStream"
                              ELSE eos' = eos /\ lastErr' = "ErrStreamClosed"
-    /\ UNCHANGED <<sst, wpc, nmsg, okmsg, fbk, queue, sock, flag, pend, got, gen, exh, nexh, inuse>>
+    /\ UNCHANGED <<sst, wpc, nmsg, okmsg, fbk, queue, sock, flag, pend, got, gen, exh, nexh, nbad, inuse>>
     /\ KfStep
 
 Next == \/ Exhaust
-        \/ \E s \in Streams : Open(s)
+        \/ \E s \in Streams : Open(s) \/ PutBad(s)
         \/ \E e \in Sides, s \in Streams :
              \/ FlushClosed(e, s) \/ FlushFallback(e, s) \/ FlushPut(e, s) \/ FlushFull(e, s)
              \/ WCas(e, s) \/ WSend(e, s) \/ Close(e, s) \/ CloseAgain(e, s) \/ Read(e, s) \/ ReadEnd(e, s)
         \/ \E e \in Sides : Deliver(e)
 Spec == Init /\ [][Next]_vars
-View == <<sst, wpc, nmsg, okmsg, fbk, queue, sock, flag, pend, got, gen, eos, exh, nexh, inuse, kf>>
+View == <<sst, wpc, nmsg, okmsg, fbk, queue, sock, flag, pend, got, gen, eos, exh, nexh, nbad, inuse, kf>>
 NoKnownFinding == kf = ""
 
 -----------------------------------------------------------------------------
